@@ -26,10 +26,9 @@ Scope and assumptions (also in the evidence):
   * data are JSON-like values (None, bool, int incl. huge, float incl. inf/nan, str incl. lone
     surrogates, list, dict) plus ``range``, ``Undefined`` and ``Markup``; user drops and custom
     filters/tags are outside;
-  * A-INTSTR: ``str()``/f-string of an integer beyond the int/str conversion limit is armed only
-    at the two funnels every value passes on its way to text (``to_liquid_string`` and the
-    ``string_filter`` wrapper, both repaired); the other ~15 ``str(arg)`` sites are the same root
-    cause and are not armed;
+  * ``str(x)`` of a data value that may be an int (or a list/dict holding one) is a ValueError
+    site (int/str conversion limit); f-string interpolation of data values is not armed (no such
+    site exists outside error messages);
   * AttributeError / TypeError on values whose kinds are unknown (anything that may be a repo
     object) are not armed; RecursionError / MemoryError belong to C09;
   * third-party internals beyond the trusted rows of the primitive table are not decided.
@@ -161,6 +160,35 @@ def _cond_cycle_nonneg(repo: Repo) -> str | None:
     return None
 
 
+def _cond_counters_small(repo: Repo) -> str | None:
+    """``RenderContext.counters`` starts empty and is written only by increment/decrement, which
+    store ``get(name, 0) +/- 1``: a counter's magnitude is bounded by the number of executed
+    increment/decrement tags, far below the int/str conversion limit."""
+    ctx = "liquid.context.RenderContext"
+    for f in repo.all_functions():
+        for n in ast.walk(f.node):
+            tgt = None
+            if isinstance(n, ast.Assign):
+                tgt = n.targets
+            elif isinstance(n, (ast.AugAssign, ast.AnnAssign)):
+                tgt = [n.target]
+            for t in tgt or []:
+                if isinstance(t, ast.Subscript) and text(t.value).endswith(".counters"):
+                    if f.qual not in (f"{ctx}.increment", f"{ctx}.decrement"):
+                        return f"{f.qual} writes a counter outside increment/decrement"
+                    v = text(n.value)
+                    ok = v in ("val + 1", "val") and any(
+                        isinstance(a, (ast.Assign, ast.AnnAssign)) and is_name(a.targets[0] if isinstance(a, ast.Assign) else a.target, "val") and text(a.value) in ("self.counters.get(name, 0)", "self.counters.get(name, 0) - 1")
+                        for a in walk_no_nested(f.node)
+                    )
+                    if not ok:
+                        return f"{f.qual} stores `{v}` in a counter (not get(name, 0) +/- 1)"
+                if isinstance(t, ast.Attribute) and t.attr == "counters" and not (f.qual == f"{ctx}.__init__" and isinstance(n.value, ast.Dict) and not n.value.keys):
+                    if f.qual.startswith(ctx) or text(t.value) in ("ctx", "context"):
+                        return f"{f.qual} rebinds the counters namespace to `{text(n.value)[:40]}`"
+    return None
+
+
 def _cond_macros_namespace(repo: Repo) -> str | None:
     """``tag_namespace['macros']`` is only ever written by MacroNode with a Macro instance."""
     for f in repo.all_functions():
@@ -226,6 +254,8 @@ REVIEWED = {
     "liquid.builtin.tags.case_tag.MultiExpressionBlockNode.render_to_output_async|attr .count:matches|AttributeError": ("as the sync twin", None),
     "liquid.builtin.tags.cycle_tag.CycleNode.render_to_output|x[k<len]:args[index]|IndexError": ("the upper bound is machine-checked (primitive `x[k<len]`: a dominating `if index >= len(args): return`); lower bound: context.cycle returns a stored value that starts at 0 and is only replaced by `(idx + 1) % (length or 1)`, never negative", _cond_cycle_nonneg),
     "liquid.builtin.tags.cycle_tag.CycleNode.render_to_output_async|x[k<len]:args[index]|IndexError": ("as the sync twin", _cond_cycle_nonneg),
+    "liquid.builtin.tags.increment_tag.IncrementNode.render_to_output|str(int):context.increment(self.name)|ValueError": ("a counter starts at 0 and moves by one per executed tag: its magnitude is bounded by the number of tag executions, never near the 4300-digit limit", _cond_counters_small),
+    "liquid.builtin.tags.decrement_tag.DecrementNode.render_to_output|str(int):context.decrement(self.name)|ValueError": ("as increment", _cond_counters_small),
     "liquid.context.RenderContext.get|next():it|StopIteration": ("a parsed Path always has at least one segment", None),
     "liquid.context.RenderContext.get_async|next():it|StopIteration": ("a parsed Path always has at least one segment", None),
     "liquid.context._segments_str|next():it|StopIteration": ("called with the non-empty segment list of a Path", None),
@@ -264,7 +294,7 @@ def run(repo: Repo) -> Result:
     )
     res.assumptions = [
         "render data are JSON-like values, range, Undefined and Markup (no user drops / custom filters)",
-        "A-INTSTR: str() of an over-long int is armed only at to_liquid_string and the string_filter wrapper",
+        "f-string interpolation of data values is not armed for the int/str conversion limit (only str(x) is)",
         "AttributeError/TypeError on values of unknown kind (possibly repo objects) are not armed",
         "third-party internals beyond the trusted rows (dateutil, babel, pytz) are not decided",
     ]
